@@ -2,10 +2,11 @@ package main
 
 import (
 	"context"
+	"encoding/json"
+	"errors"
+	"fmt"
 	"io"
 	"net"
-	"encoding/json"
-	"fmt"
 	"strings"
 	"sync"
 	"time"
@@ -14,6 +15,7 @@ import (
 	"github.com/vipnode/vipnode/v2/ethnode"
 	"github.com/vipnode/vipnode/v2/jsonrpc2"
 	"github.com/vipnode/vipnode/v2/pool"
+	"github.com/vipnode/vipnode/v2/pool/store"
 	"github.com/vipnode/vipnode/v2/request"
 )
 
@@ -262,6 +264,111 @@ func c09InflightReconnect(ctx *Ctx, i int, drv int) {
 	}
 	ctx.Emit(Case{I: i, Kind: "inflight-reconnect-" + driverNames[drv], Desc: map[string]interface{}{"call_stuck_on_old_connection": got,
 		"in_flight_request_error": fmt.Sprint(errReq), "remotes_after": n}, Monitor: mon})
+}
+
+// hookSetNodeStore lets the harness act inside (and fail) the pool's SetNode calls.
+type hookSetNodeStore struct {
+	store.Store
+	mu   sync.Mutex
+	hook func(n store.Node) error
+}
+
+func (h *hookSetNodeStore) SetNode(n store.Node) error {
+	h.mu.Lock()
+	hook := h.hook
+	h.mu.Unlock()
+	if hook != nil {
+		if err := hook(n); err != nil {
+			return err
+		}
+	}
+	return h.Store.SetNode(n)
+}
+
+// c09FailedReconnect: host H is registered on connection A and registers again on a new
+// connection B; the store fails that registration (a full disk), and while it is failing A goes
+// away. Whatever the pool makes of the failed attempt, A is closed: no request that starts later
+// may call it, and H is counted as connected only if it can be reached on an open connection.
+func c09FailedReconnect(ctx *Ctx, i int, drv int, closeDuring bool) {
+	hs := &hookSetNodeStore{}
+	w := newWorld(worldCfg{Drv: drv, Price: "1000", IntervalNs: 60e9, Settle: true, wrap: func(s store.Store) store.Store { hs.Store = s; return hs }})
+	defer w.Close()
+	w.aliasAll()
+	var mon []string
+	if _, err := w.connect("c1", false, "geth", "", ""); err != nil {
+		fatal("%v", err)
+	}
+	a := w.newConn("h1", "10.0.0.5:1")
+	if err := w.connectOn(a, "h1"); err != nil {
+		fatal("connect h1: %v", err)
+	}
+	other := w.newConn("h2", "10.0.0.6:1")
+	if err := w.connectOn(other, "h2"); err != nil {
+		fatal("connect h2: %v", err)
+	}
+	closeA := func() {
+		a.c1.Close()
+		a.c2.Close()
+		w.pool.CloseRemote(a.poolSide)
+	}
+	fired := false
+	hs.mu.Lock()
+	hs.hook = func(n store.Node) error {
+		if string(n.ID) != nodeIDOf("h1") || fired {
+			return nil
+		}
+		fired = true
+		if closeDuring {
+			closeA()
+		}
+		return errors.New("write failed: no space left on device")
+	}
+	hs.mu.Unlock()
+	b := w.newConn("h1", "10.0.0.5:2")
+	errB := w.connectOn(b, "h1")
+	if !closeDuring {
+		closeA()
+	}
+	n := w.pool.NumRemotes()
+	w.takeCalls()
+	cctx, cancel := context.WithTimeout(context.Background(), 8*time.Second)
+	r, err := w.peerCtx(cctx, "c1", 3, "")
+	cancel()
+	calls := w.takeCalls()
+	var where []string
+	onA, onB := false, false
+	for _, c := range calls {
+		if c.Method != "whitelist" {
+			continue
+		}
+		where = append(where, c.Host)
+		if c.Host == "h1#0" {
+			onA = true
+		}
+		if c.Host == "h1#1" {
+			onB = true
+		}
+	}
+	got := 0
+	if r != nil {
+		got = len(r.Peers)
+	}
+	when := "after the failed registration"
+	if closeDuring {
+		when = "while the store was failing the registration"
+	}
+	if onA {
+		mon = append(mon, fmt.Sprintf("c09-dead-connection-called: host h1 registered again on a new connection, the store refused the registration (%v), its old connection closed %s; a peer request that started afterwards called the closed connection (calls %v, result %d hosts, error %v)", errB, when, where, got, err))
+	}
+	// h2 is connected; h1 counts only if it is reachable on its open connection
+	if n == 2 && !onB {
+		mon = append(mon, fmt.Sprintf("c09-count: the pool counts 2 connected hosts after h1's old connection closed %s and its new registration failed (%v); a request for hosts reached h1 on no open connection (calls %v)", when, errB, where))
+	}
+	if n < 1 || n > 2 {
+		mon = append(mon, fmt.Sprintf("c09-count: the pool counts %d connected hosts; h2 is connected, h1 at most once", n))
+	}
+	ctx.Emit(Case{I: i, Kind: "failed-reconnect-" + driverNames[drv], Desc: map[string]interface{}{"old_connection_closed": when, "reconnect_error": fmt.Sprint(errB), "store_failed": fired,
+		"remotes_after": n, "calls": where}, Monitor: mon})
 }
 
 // c09CloseWhileOwnRequestRuns: host B's connection ends while a request B itself sent over it is
